@@ -35,7 +35,9 @@ MARKER_PROPS = {
     "VF:long.index_differs_from_twin": ["C08", "C10", "C09"],
     "VF:columns.get.returned_out_of_bounds": ["C13"],
     "VF:collapse.": ["C11"],
-    "VF:collapse.after_clear": ["C11", "C08"],
+    "VF:collapse.after_clear_read": ["C11", "C08"],
+    "VF:collapse.after_clear_like_fresh": ["C08"],
+    "VF:collapse.after_merge_like_fresh": ["C10"],
     "VF:collapse.clone": ["C11", "C09"],
     "VF:huffman.": ["C06"],
     "VF:huffman.read_differs_from_pushed": ["C06", "C01", "C02"],
